@@ -218,6 +218,41 @@ def check_clamp_chains(ctx, fns, rule='R-CLAMP.chain'):
     return n
 
 
+def check_dimensions(ctx, db):
+    """powers-of-length analysis of the flatness tests: the sampled deviation (a squared distance) is only ever
+    compared with the squared tolerance; no absolute, unit-dependent threshold decides whether a chord is accepted"""
+    from .. import dims
+    seeds = {'tolerance': 1, 'tolerance_sq': 2, 'p': 1, 'p0': 1, 'p1': 1, 'p2': 1, 'p3': 1, 'ctrl': 1, 'point_array': 1, 'points': 1, 'radius': 1}
+    n = 0
+    for qn, mins in (('gdstk::distance_to_line_sq', 1), ('gdstk::distance_to_line', 1), ('gdstk::Curve::append_cubic', 3), ('gdstk::Curve::append_quad', 3), ('gdstk::Curve::append_bezier', 5), ('gdstk::Curve::parametric', 2), ('gdstk::arc_num_points', 1)):
+        f = db.fn(qn)
+        ctx.touch(f)
+        n += dims.check(ctx, f, seeds, min_sites=mins)
+    ctx.require('R-DIM resolved sites', n, 20)
+    # floored modulo: fmod keeps the sign of its numerator; the only caller corrects it
+    calls = [(f, c) for f in db.functions if f.body is not None and f.relfile().startswith('src/') for c in f.walk() if c.k == 'CallExpr' and c.callee in ('fmod', 'std::fmod', 'fmodf', 'remainder')]
+    bad = []
+    for f, c in calls:
+        v = c.parent
+        while v is not None and v.k not in ('VarDecl', 'ReturnStmt', 'CompoundStmt'):
+            v = v.parent
+        ok = False
+        if v is not None and v.k == 'VarDecl':
+            m = v.n
+            ret = next((r for r in f.walk() if r.k == 'ReturnStmt' and r.child('value') is not None), None)
+            t = norm(ret.child('value').text()) if ret is not None else ''
+            ok = re.fullmatch(r'\(\(%s < 0\) \? \(%s \+ (\w+)\) : %s\)' % (m, m, m), t) is not None and norm(c.args[1].text()) == re.fullmatch(r'\(\(%s < 0\) \? \(%s \+ (\w+)\) : %s\)' % (m, m, m), t).group(1)
+        if not ok and _strip_casts(c.args[0]).k == 'CallExpr' and (_strip_casts(c.args[0]).callee or '') in ('fabs', 'std::fabs', 'abs'):
+            ok = True
+        if not ok:
+            bad.append('%s in %s' % (c.loc(), f.qn))
+    ctx.check(len(calls) >= 1 and not bad, 'R-IDIOM', 'angle-reduction/floored-modulo', calls[0][1].loc() if calls else '', 'every fmod result is brought into [0, y) (m < 0 ? m + y : m) before it is used as a phase: %d call site(s)' % len(calls),
+              'fmod is used without the sign correction at %s: for negative angles the reduced angle is one period off' % '; '.join(bad))
+    e = db.fn('gdstk::elliptical_angle_transform')
+    t = norm(clone.canon(e.body, e))
+    ctx.check('modulo((p0 + 3.14159' in t and 'fmod' not in t, 'R-IDIOM', 'elliptical_angle_transform/uses-floored-modulo', e.loc(), 'the whole-turn offset of the elliptical angle uses the floored modulo')
+
+
 def run(ctx):
     db = ctx.db
     f = db.fn('gdstk::Curve::commands')
@@ -234,6 +269,7 @@ def run(ctx):
     check_last_ctrl(ctx, db)
     check_clamps(ctx, db)
     check_samplers(ctx, db)
+    check_dimensions(ctx, db)
     fns = [f for f in db.functions if f.body is not None and f.relfile() in ('src/polygon.cpp', 'src/curve.cpp')]
     n = check_clamp_chains(ctx, fns)
     ctx.require('R-CLAMP.chain clamp statements', n, 20)
@@ -246,7 +282,7 @@ def run(ctx):
 
 
 MANIFEST = dict(
-    text='Decides structural necessary conditions for curve sections: Curve::commands consumes exactly the operands its guard and advance constants state and agrees letter-by-letter with RobustPath::commands; every section method stores last_ctrl on every path (or delegates unconditionally), and on the relative path the stored control point is absolute (dependence closure reaches the current end point / absolute control polygon); every vertex count from arc_num_points that is used as a divisor is dominated by a clamp to >= 2 (or the n == 1 guard); the four adaptive samplers clamp the parameter step so the last vertex is the requested end point; two bounds of the same direction on one variable (fillet radius vs both adjacent edges) are applied independently, never else-chained. Tolerance and finiteness of sampled vertices are not decided.',
+    text='Decides structural necessary conditions for curve sections: Curve::commands consumes exactly the operands its guard and advance constants state and agrees letter-by-letter with RobustPath::commands; every section method stores last_ctrl on every path (or delegates unconditionally), and on the relative path the stored control point is absolute (dependence closure reaches the current end point / absolute control polygon); every vertex count from arc_num_points that is used as a divisor is dominated by a clamp to >= 2 (or the n == 1 guard); the four adaptive samplers clamp the parameter step so the last vertex is the requested end point; the flatness tests compare squared deviations only with the squared tolerance (powers-of-length analysis: no absolute threshold), angle reduction uses a floored modulo; two bounds of the same direction on one variable (fillet radius vs both adjacent edges) are applied independently, never else-chained. Tolerance and finiteness of sampled vertices are not decided.',
     note='Trusted: clang front end, gx, sa rules. `parametric` is exempt from the last_ctrl rule (stated reason in the checker).',
     technique='operand-consumption tables + must-write dataflow over the CFG + dependence closure + clamp dominance + clamp-chain discipline',
     design='§4 C15')
